@@ -12,6 +12,8 @@ TRUSTED = ["rustc MIR", "octets::Octets cursor semantics"]
 
 
 def run(ctx):
+    ctx.rule("C15-R6", "the async source adapter reports exactly the bytes that arrived (a short read is not taken for a full one)")
+    shared.proto_io_adapters(ctx, "C15-R6")
     ctx.rule("C15-R1", "sync == async decoder as I/O sequences (Frame, StreamHeader)")
     shared.reader_sequences(ctx, "C15-R1")
     ctx.rule("C15-R2", "commit-or-drop: commit() only on the Some path of the six *_from_buffer wrappers")
